@@ -17,8 +17,8 @@ func init() {
 		ID: "C02", Section: "3 C02",
 		Technique: "dominance / must-pass path rules on the sort-before-walk discipline (field pair backends/sorted, published sub-cluster list), value-flow of the hash key, sibling-predicate agreement between weight summing and weight walking, comparator census",
 		Meta: core.Meta{
-			Level: "other",
-			Explanation: "Decides order independence and key flow, not the residue arithmetic: (a) stickyBalance calls ensureSortedUnlocked before it walks brr.backends, inside the same brr.Mutex section; ensureSortedUnlocked sorts brr.backends (strict `<` on the immutable AddrInfo) before it sets sorted=true; every store to BalanceRR.backends is followed on every path to return by sorted=false; every store that publishes BalanceGslb.subClusters stores a list on which sort.Sort (strict `<` on Name) was executed after its last append, or is followed by such a sort of the field before a success return; the single-sub-cluster index is taken from that sorted list; (b) the hash key computed once by getHashKey is the value passed unmodified to subClusterBalance, SubCluster.balance, BalanceRR.Balance, stickyBalance and GetHash; getHashKey uses randomness only under len(hashKey)==0 and GetHash only for a nil key; (c) weight partition: stickyBalance's modulus is the sum of exactly the weights of the candidates it then walks (same loop, same guard), its walk subtracts each candidate's weight and selects on value < 0; BalanceGslb's totalWeight sums weights only under weight > 0 in Init and Reload, the same predicate under which subClusterBalance walks. Not covered: murmur3 itself, that `w out of every W` residues land on a given target (arithmetic), uniformity.",
+			Level:       "other",
+			Explanation: "Decides order independence and key flow, not the residue arithmetic: (a) stickyBalance calls ensureSortedUnlocked before it walks brr.backends, inside the same brr.Mutex section; ensureSortedUnlocked sorts brr.backends (strict `<` on the immutable AddrInfo) before it sets sorted=true; every store to BalanceRR.backends is followed on every path to return by sorted=false; every store that publishes BalanceGslb.subClusters stores a list on which sort.Sort (strict `<` on Name) was executed after its last append, or is followed by such a sort of the field before a success return; the single-sub-cluster index is taken from that sorted list; (b) the hash key computed once by getHashKey is the value passed unmodified to subClusterBalance, SubCluster.balance, BalanceRR.Balance, stickyBalance and GetHash; getHashKey uses randomness only under len(hashKey)==0 and GetHash only for a nil key; (c) weight partition: stickyBalance's modulus is the sum of exactly the weights of the candidates it then walks (same loop, same guard), its walk subtracts each candidate's weight and selects on value < 0; BalanceGslb's totalWeight sums weights only under weight > 0 in Init and Reload, the same predicate under which subClusterBalance walks. Not covered: murmur3 itself, that `w out of every W` residues land on a given target (arithmetic), uniformity. Robustness: rules are decided on regions (anchor + private helpers + closures) and by role: the list read that must follow ensureSortedUnlocked is any load of BalanceRR.backends in stickyBalance's region (walked in place or handed to a helper), the lock is identified by type (BalanceRR.Mutex), the modulus / walked list / stored totalWeight / single index are followed backwards through phis, helper results and helper parameters, key parameters are identified by position, guards are accepted in either spelling/polarity and through predicate helpers, a helper that sorts its parameter on every path counts as the sort, comparators may return the strict comparison or true/false under it. Not decided: a candidate list or modulus that travels through a struct field or a closure-captured variable (reported as not followable).",
 			RuleText:    "obligations = each store to BalanceRR.backends / BalanceGslb.subClusters, each sort call and comparator, each hop of the hash key, each weight accumulation and walk site",
 		},
 		Run: runC02,
@@ -33,6 +33,18 @@ func init() {
 			{Name: "hash-header-raw-lookup", File: "bfe_balance/bal_gslb/bal_gslb.go", Old: "	if val := req.HttpRequest.Header.Get(header); len(val) > 0 {", New: "	if val := req.HttpRequest.Header.GetDirect(header); len(val) > 0 {", Expect: "key-header"},
 			{Name: "modulus-counts-unavailable", File: "bfe_balance/bal_slb/bal_rr.go", Old: "		if backendRR.backend.Avail() && backendRR.weight > 0 {\n			candidates = append(candidates, backendRR)\n			totalWeight += backendRR.weight\n		}", New: "		if backendRR.backend.Avail() && backendRR.weight > 0 {\n			candidates = append(candidates, backendRR)\n		}\n		totalWeight += backendRR.weight", Expect: "sticky-partition"},
 			{Name: "gslb-total-includes-negative", File: "bfe_balance/bal_gslb/bal_gslb.go", Old: "		if sub.weight > 0 {\n			totalWeight += sub.weight\n			availableNum += 1", New: "		totalWeight += sub.weight\n		if sub.weight > 0 {\n			availableNum += 1", Expect: "gslb-partition"},
+			// behaviour-preserving refactorings: the verdict must not change
+			{Name: "silent-cross-pick-helper", File: "bfe_balance/bal_gslb/bal_gslb.go", Old: "\tbackend, err = current.balance(balAlgor, hashKey)\n\tif err == nil {\n\t\treturn backend, nil\n\t}\n\n\t// fail to get backend from current sub-cluster\n\tstate.ErrBkNoBackend.Inc(1)\n\treq.ErrCode = bfe_basic.ErrBkNoBackend\n\treq.ErrMsg = fmt.Sprintf(\"cluster[%s], sub[%s], err[%s]\", bal.name, current.Name, err.Error())\n\tlog.Logger.Info(\"gslb.Balance():no backend(cross cluster):cluster[%s], sub[%s], err[%s]\",\n\t\tbal.name, current.Name, err.Error())\n\n\treturn backend, bfe_basic.ErrBkCrossRetryBalance\n}\n", New: "\tbackend, err = crossPick(current, balAlgor, hashKey)\n\tif err == nil {\n\t\treturn backend, nil\n\t}\n\n\t// fail to get backend from current sub-cluster\n\tstate.ErrBkNoBackend.Inc(1)\n\treq.ErrCode = bfe_basic.ErrBkNoBackend\n\treq.ErrMsg = fmt.Sprintf(\"cluster[%s], sub[%s], err[%s]\", bal.name, current.Name, err.Error())\n\tlog.Logger.Info(\"gslb.Balance():no backend(cross cluster):cluster[%s], sub[%s], err[%s]\",\n\t\tbal.name, current.Name, err.Error())\n\n\treturn backend, bfe_basic.ErrBkCrossRetryBalance\n}\n\n// crossPick balances inside the sub cluster chosen for the cross retry.\nfunc crossPick(target *SubCluster, algor int, key []byte) (*bal_backend.BfeBackend, error) {\n\treturn target.balance(algor, key)\n}\n", Silent: true},
+			{Name: "silent-sort-helper", File: "bfe_balance/bal_slb/bal_rr.go", Old: "\tif !brr.sorted {\n\t\tsort.Sort(BackendListSorter{brr.backends})\n\t\tbrr.sorted = true\n\t}\n}\n", New: "\tif !brr.sorted {\n\t\tsortByAddr(brr.backends)\n\t\tbrr.sorted = true\n\t}\n}\n\nfunc sortByAddr(list BackendList) {\n\tsort.Sort(BackendListSorter{list})\n}\n", Silent: true},
+			{Name: "silent-reload-weights-helper", File: "bfe_balance/bal_gslb/bal_gslb.go", Old: "\t// calc total_weight\n\ttotalWeight := 0\n\tavailableNum := 0\n\tlastAvailIndex := 0\n\n\tfor index, sub := range subListNew {\n\t\tif sub.weight > 0 {\n\t\t\ttotalWeight += sub.weight\n\t\t\tavailableNum += 1\n\t\t\tlastAvailIndex = index\n\t\t}\n\t}\n\n\tif totalWeight == 0 {\n\t\t// should never be here, as ClusterCheck return true\n\t\tlog.Logger.Critical(\"gslb total weight = 0 [%s]\", bal.name)\n\t\treturn fmt.Errorf(\"gslb total weight = 0 [%s]\", bal.name)\n\t}\n\n\tbal.totalWeight = totalWeight\n\n\tif availableNum == 1 {\n\t\tbal.single = true\n\t\tbal.avail = lastAvailIndex\n\t} else {\n\t\tbal.single = false\n\t}\n\n\t// update gslb.subClusters\n\tbal.subClusters = subListNew\n\n\treturn nil\n}\n", New: "\t// calc total_weight\n\ttotalWeight, availableNum, lastAvailIndex := sumPositive(subListNew)\n\n\tif totalWeight == 0 {\n\t\t// should never be here, as ClusterCheck return true\n\t\tlog.Logger.Critical(\"gslb total weight = 0 [%s]\", bal.name)\n\t\treturn fmt.Errorf(\"gslb total weight = 0 [%s]\", bal.name)\n\t}\n\n\tbal.totalWeight = totalWeight\n\n\tif availableNum == 1 {\n\t\tbal.single = true\n\t\tbal.avail = lastAvailIndex\n\t} else {\n\t\tbal.single = false\n\t}\n\n\t// update gslb.subClusters\n\tbal.subClusters = subListNew\n\n\treturn nil\n}\n\n// sumPositive returns the weight sum and the number of sub clusters with\n// positive weight, and the index of the last of them.\nfunc sumPositive(list SubClusterList) (total int, num int, last int) {\n\tfor index, item := range list {\n\t\tif item.weight > 0 {\n\t\t\ttotal += item.weight\n\t\t\tnum++\n\t\t\tlast = index\n\t\t}\n\t}\n\treturn total, num, last\n}\n", Silent: true},
+			{Name: "silent-inverted-sticky-guard", File: "bfe_balance/bal_slb/bal_rr.go", Old: "\tif algor != WrrSticky {\n\t\tbrr.checkSlowStart()\n\t}\n", New: "\tif WrrSticky == algor {\n\t\t// no slow start bookkeeping for sticky sessions\n\t} else {\n\t\tbrr.checkSlowStart()\n\t}\n", Silent: true},
+			{Name: "silent-mirrored-empty-key-test", File: "bfe_balance/bal_gslb/bal_gslb.go", Old: "\tif len(hashKey) == 0 {\n\t\thashKey = make([]byte, 8)", New: "\tif 0 == len(hashKey) {\n\t\thashKey = make([]byte, 8)", Silent: true},
+			{Name: "silent-comparator-if-form", File: "bfe_balance/bal_gslb/sub_cluster.go", Old: "\treturn s.l[i].Name < s.l[j].Name", New: "\tif s.l[i].Name < s.l[j].Name {\n\t\treturn true\n\t}\n\treturn false", Silent: true},
+			{Name: "silent-gethash-renamed-param", File: "bfe_balance/bal_slb/bal_rr.go", Old: "func GetHash(value []byte, base uint) int {\n\tvar hash uint64\n\n\tif value == nil {\n\t\thash = uint64(rand.Uint32())\n\t} else {\n\t\thash = murmur3.Sum64(value)\n\t}\n", New: "func GetHash(data []byte, base uint) int {\n\tvar hash uint64\n\n\tif nil == data {\n\t\thash = uint64(rand.Uint32())\n\t} else {\n\t\thash = murmur3.Sum64(data)\n\t}\n", Silent: true},
+			{Name: "silent-sticky-debug-logging", File: "bfe_balance/bal_slb/bal_rr.go", Old: "\tvalue := GetHash(key, uint(totalWeight))\n", New: "\tvalue := GetHash(key, uint(totalWeight))\n\tif bfe_debug.DebugBal {\n\t\tlog.Logger.Debug(\"rr_bal:sticky residue[%d] of [%d]\", value, totalWeight)\n\t}\n", Silent: true},
+			{Name: "silent-sticky-walk-index-loop", File: "bfe_balance/bal_slb/bal_rr.go", Old: "\tfor _, backendRR := range candidates {\n\t\tvalue -= backendRR.weight\n\t\tif value < 0 {\n\t\t\treturn backendRR.backend, nil\n\t\t}\n\t}\n", New: "\tfor i := 0; i < len(candidates); i++ {\n\t\tvalue -= candidates[i].weight\n\t\tif value >= 0 {\n\t\t\tcontinue\n\t\t}\n\t\treturn candidates[i].backend, nil\n\t}\n", Silent: true},
+			{Name: "silent-sticky-predicate-helper-renamed-key", File: "bfe_balance/bal_slb/bal_rr.go", Old: "func (brr *BalanceRR) stickyBalance(key []byte) (*backend.BfeBackend, error) {\n\tcandidates := make(BackendList, 0, brr.Len())\n\ttotalWeight := 0\n\n\tbrr.Lock()\n\tdefer brr.Unlock()\n\n\t// select available candidates\n\tbrr.ensureSortedUnlocked()\n\tfor _, backendRR := range brr.backends {\n\t\tif backendRR.backend.Avail() && backendRR.weight > 0 {\n", New: "func stickyUsable(item *BackendRR) bool {\n\tif !item.backend.Avail() {\n\t\treturn false\n\t}\n\treturn item.weight > 0\n}\n\nfunc (brr *BalanceRR) stickyBalance(hashKey []byte) (*backend.BfeBackend, error) {\n\tkey := hashKey\n\tcandidates := make(BackendList, 0, brr.Len())\n\ttotalWeight := 0\n\n\tbrr.Lock()\n\tdefer brr.Unlock()\n\n\t// select available candidates\n\tbrr.ensureSortedUnlocked()\n\tfor _, backendRR := range brr.backends {\n\t\tif stickyUsable(backendRR) {\n", Silent: true},
+			{Name: "silent-subcluster-walk-nested-positive", File: "bfe_balance/bal_gslb/bal_gslb.go", Old: "\t\tif subCluster.weight <= 0 {\n\t\t\tcontinue\n\t\t}\n\t\tw -= subCluster.weight\n\t\t// got it\n\t\tif w < 0 {\n\t\t\tbreak\n\t\t}\n", New: "\t\tif 0 < subCluster.weight {\n\t\t\tw -= subCluster.weight\n\t\t\t// got it\n\t\t\tif w < 0 {\n\t\t\t\tbreak\n\t\t\t}\n\t\t}\n", Silent: true},
 		},
 	})
 }
@@ -63,7 +75,28 @@ func sortedList(call ssa.CallInstruction) ssa.Value {
 	return nil
 }
 
+// balMustPassOut: every path from `from` to a return of its function passes an
+// instruction satisfying pred (a call of a helper that always does counts);
+// when the function is a private helper with one call site and a path escapes,
+// the obligation continues after that call site.
+func balMustPassOut(p *core.Prog, from ssa.Instruction, pred func(ssa.Instruction) bool) bool {
+	lifted := core.LiftMust(pred, 2)
+	for depth := 0; depth < 4; depth++ {
+		fn := from.Parent()
+		if core.MustPass(fn, from, lifted) == nil {
+			return true
+		}
+		s := balSingleSite(p, fn)
+		if s == nil {
+			return false
+		}
+		from = s.(ssa.Instruction)
+	}
+	return false
+}
+
 func runC02(c *core.Ctx) {
+	defer balAcquire(c.P)()
 	const slb, gslb = "bfe_balance/bal_slb", "bfe_balance/bal_gslb"
 	if c.P.Pkg(slb) == nil || c.P.Pkg(gslb) == nil {
 		c.Missing(slb + " / " + gslb)
@@ -80,141 +113,254 @@ func runC02(c *core.Ctx) {
 	for i, st := range core.FieldStores(c.P.SrcFuncs(""), bf) {
 		fn := st.Fn
 		c.Analysed(core.FuncKey(fn))
-		bad := core.MustPass(fn, st.Store, func(x ssa.Instruction) bool {
+		okF := balMustPassOut(c.P, st.Store, func(x ssa.Instruction) bool {
 			s, ok := x.(*ssa.Store)
 			if !ok {
 				return false
 			}
 			fa, ok := s.Addr.(*ssa.FieldAddr)
-			return ok && core.FieldObj(fa.X, fa.Field) == sf && core.Render(s.Val) == "false"
+			if !ok || core.FieldObj(fa.X, fa.Field) != sf {
+				return false
+			}
+			kv, isK := balConstBool(s.Val)
+			return isK && !kv
 		})
 		// a store inside a loop followed by one after the loop is fine: MustPass covers it
-		c.Check("sorted-flag", fmt.Sprintf("%s:store#%d", core.FuncKey(fn), i), st.Store.Pos(), bad == nil, "BalanceRR.backends is replaced/extended and a path reaches return without sorted=false: the next sticky selection walks the list in history order")
+		c.Check("sorted-flag", fmt.Sprintf("%s:store#%d", core.FuncKey(fn), i), st.Store.Pos(), okF, "BalanceRR.backends is replaced/extended and a path reaches return without sorted=false: the next sticky selection walks the list in history order")
 	}
 	c.Min("sorted-flag", 2)
+	ensure := c.P.Func(slb, "BalanceRR.ensureSortedUnlocked")
 	for _, st := range core.FieldStores(c.P.SrcFuncs(""), sf) {
-		if core.Render(st.Store.Val) != "true" {
+		if kv, isK := balConstBool(st.Store.Val); !isK || !kv {
 			continue
 		}
 		fn := st.Fn
 		okS := false
-		for _, s := range core.Calls(fn, "sort.Sort") {
-			if l := sortedList(s); l != nil && strings.HasSuffix(core.Render(l), ".backends") && core.Dominates(s.(ssa.Instruction), st.Store) {
+		for _, ev := range balSortEvents(fn) {
+			if balLoadOfField(ev.List, bf) != nil && core.Dominates(ev.At, st.Store) {
 				okS = true
 			}
 		}
-		c.Check("sorted-flag", core.FuncKey(fn)+":set-true", st.Store.Pos(), okS && core.FuncKey(fn) == slb+".BalanceRR.ensureSortedUnlocked", "sorted=true must be set only by ensureSortedUnlocked, after sort.Sort(BackendListSorter{brr.backends})")
+		c.Check("sorted-flag", core.FuncKey(fn)+":set-true", st.Store.Pos(), okS && ensure != nil && balInRegion(c.P, ensure, fn), "sorted=true must be set only by ensureSortedUnlocked, after sort.Sort(BackendListSorter{brr.backends})")
 	}
 	// ---- stickyBalance: sort before walk, under the lock ---------------------------------------------
 	if fn := c.P.Func(slb, "BalanceRR.stickyBalance"); fn == nil {
 		c.Missing(slb + ".BalanceRR.stickyBalance")
 	} else {
 		c.Analysed(core.FuncKey(fn))
-		ls := core.ComputeLockSets(fn)
-		es := core.Calls(fn, slb+".BalanceRR.ensureSortedUnlocked")
+		const lockKey = slb + ".BalanceRR.Mutex"
+		ls := core.ComputeLockSetsT(fn)
+		// calls of ensureSortedUnlocked, as instructions of stickyBalance itself
+		isEnsure := map[ssa.Instruction]bool{}
+		for _, cc := range balCtxCalls(c.P, fn, balCallMatcher(slb+".BalanceRR.ensureSortedUnlocked")) {
+			isEnsure[cc.RootInstr()] = true
+		}
+		// every read of the list field in stickyBalance's region (walked in place or handed to a helper)
 		nWalk := 0
-		for _, in := range allInstrs(fn) {
-			ia, ok := in.(*ssa.IndexAddr)
-			if !ok || core.Render(ia.X) != "brr.backends" {
+		for _, in := range balRegionInstrs(c.P, fn) {
+			u, ok := in.(*ssa.UnOp)
+			if !ok || u.Op != token.MUL {
 				continue
+			}
+			fa, ok := u.X.(*ssa.FieldAddr)
+			if !ok || core.FieldObj(fa.X, fa.Field) != bf {
+				continue
+			}
+			ri := balRootInstr(c.P, fn, in)
+			if ri != nil && isEnsure[ri] {
+				continue // the sort itself
 			}
 			nWalk++
 			okW := false
-			for _, e := range es {
-				ei := e.(ssa.Instruction)
-				if core.Dominates(ei, in) && ls.Holds(ei, "brr.Mutex", "W") && ls.Holds(in, "brr.Mutex", "W") {
-					// no unlock between
-					rel := core.ReachAvoiding(fn, ei, func(x ssa.Instruction) bool { return x == in }, func(x ssa.Instruction) bool {
-						call, ok := x.(*ssa.Call)
-						if !ok {
-							return false
+			if ri != nil {
+				for ei := range isEnsure {
+					if core.Dominates(ei, ri) && ls.Holds(ei, lockKey, "W") && ls.Holds(ri, lockKey, "W") {
+						// no unlock between
+						rel := core.ReachAvoiding(fn, ei, func(x ssa.Instruction) bool { return x == ri }, func(x ssa.Instruction) bool {
+							call, ok := x.(*ssa.Call)
+							if !ok {
+								return false
+							}
+							k, _, ok := core.LockEvent(&call.Call)
+							return ok && k == "Unlock"
+						})
+						if rel == nil {
+							okW = true
 						}
-						k, _, ok := core.LockEvent(&call.Call)
-						return ok && k == "Unlock"
-					})
-					okW = rel == nil
+					}
 				}
 			}
 			c.Check("sort-before-walk", fmt.Sprintf("stickyBalance:walk#%d", nWalk), in.Pos(), okW, "stickyBalance reads brr.backends without ensureSortedUnlocked having run earlier in the same brr.Mutex section")
 		}
 		c.Min("sort-before-walk", 1)
 		// partition: modulus = sum over candidates; walk subtracts candidate weights
-		var hashCall ssa.CallInstruction
-		for _, h := range core.Calls(fn, slb+".GetHash") {
-			hashCall = h
-		}
-		if hashCall == nil {
+		hashCalls := balCtxCalls(c.P, fn, balCallMatcher(slb+".GetHash"))
+		if len(hashCalls) == 0 {
 			c.Check("sticky-partition", "stickyBalance:GetHash", fn.Pos(), false, "stickyBalance does not call GetHash")
 		} else {
-			mod := core.StripConv(hashCall.Common().Args[1])
-			okSum := false
-			if phi, isPhi := mod.(*ssa.Phi); isPhi {
-				okSum = true
-				nAdd := 0
-				seen := map[ssa.Value]bool{}
-				var walk func(v ssa.Value)
-				walk = func(v ssa.Value) {
-					if seen[v] {
-						return
+			hashCall := hashCalls[len(hashCalls)-1]
+			// the modulus, followed backwards through phis, helper results and helper parameters, is 0 plus
+			// weights of elements that are eligible, and appended to the candidate list, where they are added
+			okSum := true
+			nAdd := 0
+			appends := map[*ssa.Call]bool{}
+			seen := map[ssa.Value]bool{}
+			var walk func(v ssa.Value, d int)
+			walk = func(v ssa.Value, d int) {
+				v = core.StripConv(v)
+				if seen[v] {
+					return
+				}
+				seen[v] = true
+				if d > 12 {
+					okSum = false
+					return
+				}
+				switch x := v.(type) {
+				case *ssa.Phi:
+					for _, e := range x.Edges {
+						walk(e, d+1)
 					}
-					seen[v] = true
-					switch x := v.(type) {
-					case *ssa.Phi:
-						for _, e := range x.Edges {
-							walk(e)
-						}
-					case *ssa.Const:
-						if !isZero(x) {
-							okSum = false
-						}
-					case *ssa.BinOp:
-						e := fieldLoadOf(x.Y, "weight")
-						if x.Op != token.ADD || e == nil {
-							okSum = false
-							return
-						}
-						nAdd++
-						// the same block appends the same element to candidates
-						a, p := eligibleByGuards(e, core.GuardsAt(x.Block()))
-						appended := false
-						for _, in := range x.Block().Instrs {
-							if call, ok := in.(*ssa.Call); ok {
-								if b, isB := call.Call.Value.(*ssa.Builtin); isB && b.Name() == "append" {
-									appended = true
-								}
-							}
-						}
-						if !a || !p || !appended {
-							okSum = false
-						}
-						walk(x.X)
-					default:
+				case *ssa.Const:
+					if !isZero(x) {
 						okSum = false
 					}
-				}
-				walk(phi)
-				if nAdd == 0 {
+				case *ssa.BinOp:
+					if x.Op != token.ADD {
+						okSum = false
+						return
+					}
+					acc, term := x.X, x.Y
+					e := fieldLoadOf(term, "weight")
+					if e == nil {
+						acc, term = x.Y, x.X
+						e = fieldLoadOf(term, "weight")
+					}
+					if e == nil {
+						okSum = false
+						return
+					}
+					nAdd++
+					a, p := balEligibleAt(c.P, e, x.Block())
+					// the same element is appended to the candidates under the same conditions: in the
+					// same block, or in a block that this one dominates / is dominated by without a
+					// branch in between (same guards)
+					appended := false
+					for _, in := range allInstrs(x.Parent()) {
+						call, ok := in.(*ssa.Call)
+						if !ok {
+							continue
+						}
+						for _, ae := range appendedElems(call) {
+							if (ae == e || balSameList(ae, e)) && sameGuards(call.Block(), x.Block()) {
+								appended = true
+								appends[call] = true
+							}
+						}
+					}
+					if !a || !p || !appended {
+						okSum = false
+					}
+					walk(acc, d+1)
+				case *ssa.Call, *ssa.Extract:
+					_, h, idx := balCallee(x)
+					if h == nil || !balInRegion(c.P, fn, h) {
+						okSum = false
+						return
+					}
+					for _, r := range balResults(h, idx) {
+						walk(r, d+1)
+					}
+				case *ssa.Parameter:
+					if u := balUp(c.P, x); u != ssa.Value(x) {
+						walk(u, d+1)
+					} else {
+						okSum = false
+					}
+				default:
 					okSum = false
 				}
 			}
-			c.Check("sticky-partition", "stickyBalance:modulus", hashCall.Pos(), okSum, "the hash modulus must be the sum of the weights of exactly the candidates appended under Avail() && weight > 0 (same block as the append)")
+			walk(hashCall.Arg(1), 0)
+			if nAdd == 0 {
+				okSum = false
+			}
+			c.Check("sticky-partition", "stickyBalance:modulus", hashCall.Call.Pos(), okSum, "the hash modulus must be the sum of the weights of exactly the candidates appended under Avail() && weight > 0 (same block as the append)")
 			// walk: value -= e.weight ; select under value < 0 ; e from candidates
+			// fromCandidates: the list walked is, on every way it is produced, built by those appends
+			var fromAppends func(v ssa.Value, d int, seen map[ssa.Value]bool) bool
+			fromAppends = func(v ssa.Value, d int, seen map[ssa.Value]bool) bool {
+				v = balUp(c.P, v)
+				if d > 10 {
+					return false
+				}
+				if seen[v] {
+					return true
+				}
+				seen[v] = true
+				switch x := v.(type) {
+				case *ssa.MakeSlice:
+					return true
+				case *ssa.Const:
+					return x.Value == nil
+				case *ssa.Phi:
+					for _, e := range x.Edges {
+						if !fromAppends(e, d+1, seen) {
+							return false
+						}
+					}
+					return true
+				case *ssa.Call:
+					if appends[x] {
+						return fromAppends(x.Call.Args[0], d+1, seen)
+					}
+					if _, h, idx := balCallee(x); h != nil && balInRegion(c.P, fn, h) {
+						for _, r := range balResults(h, idx) {
+							if !fromAppends(r, d+1, seen) {
+								return false
+							}
+						}
+						return true
+					}
+				case *ssa.Extract:
+					if _, h, idx := balCallee(x); h != nil && balInRegion(c.P, fn, h) {
+						for _, r := range balResults(h, idx) {
+							if !fromAppends(r, d+1, seen) {
+								return false
+							}
+						}
+						return true
+					}
+				}
+				return false
+			}
 			okWalk := false
-			for _, in := range allInstrs(fn) {
+			for _, in := range balRegionInstrs(c.P, fn) {
 				b, ok := in.(*ssa.BinOp)
 				if !ok || b.Op != token.SUB || fieldLoadOf(b.Y, "weight") == nil {
 					continue
 				}
 				e := fieldLoadOf(b.Y, "weight")
-				fromCand := strings.Contains(core.Render(e), "candidates") || strings.Contains(core.Render(e), "builtin:append")
+				list, _ := balElemOfList(e)
+				fromCand := list != nil && len(appends) > 0 && fromAppends(list, 0, map[ssa.Value]bool{})
 				sel := false
-				for _, r := range core.Returns(fn) {
+				g := b.Parent()
+				for _, r := range core.Returns(g) {
 					rv := core.RetVals(r)
-					if isNilConst(rv[1]) && fieldLoadOf(rv[0], "backend") != nil && sameElem(fieldLoadOf(rv[0], "backend"), e) {
-						sel = core.HasGuard(r.Block(), func(g core.Guard) bool {
-							c2, ok := g.Cond.(*ssa.BinOp)
-							return ok && g.Pol && c2.Op == token.LSS && c2.X == ssa.Value(b) && isZero(c2.Y)
-						})
+					var hit bool
+					if g == fn {
+						hit = len(rv) == 2 && isNilConst(rv[1]) && fieldLoadOf(rv[0], "backend") != nil && sameElem(fieldLoadOf(rv[0], "backend"), e)
+					} else {
+						// a helper that returns the chosen element (or its backend) to stickyBalance
+						hit = len(rv) >= 1 && (core.StripConv(rv[0]) == core.StripConv(e) || (fieldLoadOf(rv[0], "backend") != nil && sameElem(fieldLoadOf(rv[0], "backend"), e)))
+					}
+					if !hit {
+						continue
+					}
+					for _, f := range balFactsAt(r.Block()) {
+						if f.G().CmpIs(token.LSS, func(v ssa.Value) bool { return v == ssa.Value(b) }, isZero) {
+							sel = true
+						}
 					}
 				}
 				if fromCand && sel {
@@ -228,22 +374,9 @@ func runC02(c *core.Ctx) {
 	// avail index from sorted list (shared with C03's avail-index rule)
 	if fld, ok := c.P.Obj(gslb, "BalanceGslb.avail").(*types.Var); ok {
 		for _, st := range core.FieldStores(c.P.SrcFuncs(gslb), fld) {
-			dom := false
-			for _, s := range core.Calls(st.Fn, "sort.Sort") {
-				if core.Dominates(s.(ssa.Instruction), st.Store) {
-					dom = true
-				}
-			}
-			// the index must come from a loop entered after the sort
-			idxAfter := true
-			if phi, isPhi := st.Store.Val.(*ssa.Phi); isPhi {
-				for _, s := range core.Calls(st.Fn, "sort.Sort") {
-					if !core.Dominates(s.(ssa.Instruction), phi) {
-						idxAfter = false
-					}
-				}
-			}
-			c.Check("single-index", core.FuncKey(st.Fn), st.Store.Pos(), dom && idxAfter, "the single-sub-cluster index must be computed over the list after it was sorted")
+			// the index must come from a loop over the list, entered after the list was sorted
+			sorted, _, why := balIndexOfSorted(c.P, st.Store.Val, balFactsAt(st.Store.Block()))
+			c.Check("single-index", availKey(c.P, st.Fn), st.Store.Pos(), sorted, "the single-sub-cluster index must be computed over the list after it was sorted. "+why)
 		}
 		c.Min("single-index", 2)
 	}
@@ -252,44 +385,71 @@ func runC02(c *core.Ctx) {
 		c.Missing(gslb + ".BalanceGslb.Balance")
 	} else {
 		c.Analysed(core.FuncKey(fn))
-		hk := core.Calls(fn, gslb+".BalanceGslb.getHashKey")
+		hk := balCtxCalls(c.P, fn, balCallMatcher(gslb+".BalanceGslb.getHashKey"))
 		if len(hk) != 1 {
 			c.Check("key-flow", "BalanceGslb.Balance:getHashKey", fn.Pos(), false, fmt.Sprintf("expected exactly one getHashKey call, found %d", len(hk)))
 		} else {
-			key := hk[0].(*ssa.Call)
+			key, _ := hk[0].Call.(*ssa.Call)
 			n := 0
-			for _, ci := range append(core.Calls(fn, gslb+".BalanceGslb.subClusterBalance"), core.Calls(fn, gslb+".SubCluster.balance")...) {
+			for _, cc := range balCtxCalls(c.P, fn, balCallMatcher(gslb+".BalanceGslb.subClusterBalance", gslb+".SubCluster.balance")) {
 				n++
-				a := ci.Common().Args[len(ci.Common().Args)-1]
-				c.Check("key-flow", fmt.Sprintf("BalanceGslb.Balance:use#%d", n), ci.Pos(), core.StripConv(a) == ssa.Value(key), "the hash key passed here is "+core.Render(a)+", not the unmodified result of getHashKey(req): the two levels / retries would hash different keys")
+				a := cc.Arg(len(cc.Call.Common().Args) - 1)
+				// the key may reach the call through a helper's result when the getHashKey call itself sits in that helper
+				okKey := key != nil && core.StripConv(a) == ssa.Value(key)
+				if !okKey && key != nil {
+					os := balOrigins(c.P, a)
+					okKey = len(os) == 1 && os[0] == ssa.Value(key)
+				}
+				c.Check("key-flow", fmt.Sprintf("BalanceGslb.Balance:use#%d", n), cc.Call.Pos(), okKey, "the hash key passed here is "+core.Render(a)+", not the unmodified result of getHashKey(req): the two levels / retries would hash different keys")
 			}
 			c.Min("key-flow", 5)
 		}
 	}
-	passthrough := func(pkg, fname, callee string, argIdx int, param string) {
+	// the key parameter (identified by position) is handed on unmodified
+	passthrough := func(pkg, fname, callee string, argIdx int, paramIdx int) {
 		fn := c.P.Func(pkg, fname)
 		if fn == nil {
 			c.Missing(pkg + "." + fname)
 			return
 		}
 		c.Analysed(core.FuncKey(fn))
-		cs := core.Calls(fn, callee)
+		cs := balCtxCalls(c.P, fn, balCallMatcher(callee))
 		if len(cs) == 0 {
 			c.Check("key-flow", fname+"->"+callee, fn.Pos(), false, fname+" no longer calls "+callee)
 			return
 		}
-		for i, ci := range cs {
-			a := core.StripConv(ci.Common().Args[argIdx])
-			p, isP := a.(*ssa.Parameter)
-			c.Check("key-flow", fmt.Sprintf("%s->%s#%d", fname, callee, i), ci.Pos(), isP && p.Name() == param, fname+" passes "+core.Render(a)+" instead of its own key parameter")
+		for i, cc := range cs {
+			a := cc.Arg(argIdx)
+			pa := balAsParam(a)
+			c.Check("key-flow", fmt.Sprintf("%s->%s#%d", fname, callee, i), cc.Call.Pos(), pa != nil && pa.Parent() == fn && balParamIndex(pa) == paramIdx, fname+" passes "+core.Render(a)+" instead of its own key parameter")
 		}
 	}
-	passthrough(gslb, "SubCluster.balance", slb+".BalanceRR.Balance", 2, "key")
-	passthrough(slb, "BalanceRR.Balance", slb+".BalanceRR.stickyBalance", 1, "key")
-	passthrough(slb, "BalanceRR.stickyBalance", slb+".GetHash", 0, "key")
-	passthrough(gslb, "BalanceGslb.subClusterBalance", slb+".GetHash", 0, "value")
+	passthrough(gslb, "SubCluster.balance", slb+".BalanceRR.Balance", 2, 2)
+	passthrough(slb, "BalanceRR.Balance", slb+".BalanceRR.stickyBalance", 1, 2)
+	passthrough(slb, "BalanceRR.stickyBalance", slb+".GetHash", 0, 1)
+	passthrough(gslb, "BalanceGslb.subClusterBalance", slb+".GetHash", 0, 1)
 	// randomness only for empty keys
-	for _, spec := range []struct{ pkg, fn, guard string }{{gslb, "BalanceGslb.getHashKey", "(builtin:len("}, {slb, "GetHash", "(value == nil"}} {
+	for _, spec := range []struct {
+		pkg, fn string
+		empty   func(fn *ssa.Function, f balFact) bool
+	}{
+		{gslb, "BalanceGslb.getHashKey", func(fn *ssa.Function, f balFact) bool {
+			// len(k) == 0 for a byte slice k
+			return f.G().CmpIs(token.EQL, func(v ssa.Value) bool {
+				call, ok := core.StripConv(v).(*ssa.Call)
+				if !ok {
+					return false
+				}
+				b, isB := call.Call.Value.(*ssa.Builtin)
+				return isB && b.Name() == "len" && len(call.Call.Args) == 1
+			}, isZero)
+		}},
+		{slb, "GetHash", func(fn *ssa.Function, f balFact) bool {
+			// the key parameter (#0) is nil
+			v, isNil, ok := balNilTest(f)
+			return ok && isNil && balIsParam(c.P, v, fn, 0)
+		}},
+	} {
 		fn := c.P.Func(spec.pkg, spec.fn)
 		if fn == nil {
 			c.Missing(spec.pkg + "." + spec.fn)
@@ -297,18 +457,22 @@ func runC02(c *core.Ctx) {
 		}
 		c.Analysed(core.FuncKey(fn))
 		n := 0
-		for _, ci := range core.AllCalls(fn) {
+		for _, in := range balRegionInstrs(c.P, fn) {
+			ci, isCall := in.(ssa.CallInstruction)
+			if !isCall {
+				continue
+			}
 			k := core.CalleeKey(ci.Common())
 			if !strings.HasPrefix(k, "math/rand.") && k != "time.Now" {
 				continue
 			}
 			n++
-			ok := core.HasGuard(ci.(ssa.Instruction).Block(), func(g core.Guard) bool {
-				if !g.Pol || !strings.HasPrefix(g.Str, spec.guard) {
-					return false
+			ok := false
+			for _, f := range balFactsCtx(c.P, in.Block()) {
+				if spec.empty(fn, f) {
+					ok = true
 				}
-				return strings.HasSuffix(g.Str, " == 0)") || strings.HasSuffix(g.Str, " == nil)")
-			})
+			}
 			c.Check("key-random", fmt.Sprintf("%s:%s#%d", spec.fn, k, n), ci.Pos(), ok, spec.fn+" uses "+k+" outside the empty-key case; equal keys would no longer select equal targets")
 		}
 	}
@@ -317,26 +481,27 @@ func runC02(c *core.Ctx) {
 	// stickyBalance skips the slow-start bookkeeping (checkSlowStart), so nothing on its path undoes
 	// a provisional slow-start weight: the slow-start writers of BackendRR.weight may only run from
 	// checkSlowStart, and checkSlowStart only from BalanceRR.Balance under algor != WrrSticky.
-	for callee, allowed := range map[string][]string{
-		slb + ".BackendRR.initSlowStart":   {slb + ".BalanceRR.checkSlowStart"},
-		slb + ".BackendRR.updateSlowStart": {slb + ".BalanceRR.checkSlowStart"},
-		slb + ".BalanceRR.checkSlowStart":  {slb + ".BalanceRR.Balance"},
-	} {
-		okSet := map[string]bool{}
-		for _, a := range allowed {
-			okSet[a] = true
+	sticky := balConstOf(c.P, slb, "WrrSticky")
+	balFn := c.P.Func(slb, "BalanceRR.Balance")
+	for _, callee := range []string{slb + ".BackendRR.initSlowStart", slb + ".BackendRR.updateSlowStart", slb + ".BalanceRR.checkSlowStart"} {
+		allowedKey := slb + ".BalanceRR.checkSlowStart"
+		if callee == slb+".BalanceRR.checkSlowStart" {
+			allowedKey = slb + ".BalanceRR.Balance"
 		}
+		allowedFn := c.P.Func(slb, strings.TrimPrefix(allowedKey, slb+"."))
 		n := 0
 		for _, f := range c.P.SrcFuncs("") {
 			for _, ci := range core.Calls(f, callee) {
 				n++
 				k := core.FuncKey(f)
-				ok := okSet[k]
+				ok := allowedFn != nil && balInRegion(c.P, allowedFn, f)
 				if ok && callee == slb+".BalanceRR.checkSlowStart" {
-					ok = core.HasGuard(ci.(ssa.Instruction).Block(), func(g core.Guard) bool {
-						b, isB := g.Cond.(*ssa.BinOp)
-						return isB && core.Render(b.X) == "algor" && core.Render(b.Y) == "2" && ((b.Op == token.NEQ && g.Pol) || (b.Op == token.EQL && !g.Pol))
-					})
+					ok = false
+					for _, ft := range balFactsCtx(c.P, ci.(ssa.Instruction).Block()) {
+						if sticky != "" && ft.G().CmpIs(token.NEQ, func(v ssa.Value) bool { return balIsParam(c.P, ft.res(v), balFn, 1) }, func(v ssa.Value) bool { return balConstIs(v, sticky) }) {
+							ok = true
+						}
+					}
 				}
 				c.Check("sticky-weights", callee+"<-"+k, ci.Pos(), ok, k+" calls "+callee+": slow-start weights (weight=1 at restart, ramping afterwards) may only be installed/advanced by checkSlowStart, which Balance skips for sticky selection; otherwise a sticky sub-cluster partitions the hash space by a provisional weight forever")
 			}
@@ -345,7 +510,7 @@ func runC02(c *core.Ctx) {
 			c.Check("sticky-weights", callee+"<-none", token.NoPos, false, callee+" has no caller")
 		}
 	}
-	if k, ok := c.P.Obj(slb, "WrrSticky").(*types.Const); !ok || k.Val().ExactString() != "2" {
+	if sticky != "2" {
 		c.Check("sticky-weights", "WrrSticky-const", token.NoPos, false, "bal_slb.WrrSticky is not the constant 2 the rule was reviewed with")
 	}
 	// ---- header-derived keys are read through the canonicalising accessor ----------------------------
@@ -357,9 +522,6 @@ func runC02(c *core.Ctx) {
 		for _, ci := range core.AllCalls(f) {
 			k := core.CalleeKey(ci.Common())
 			if k != "bfe_http.Header.GetDirect" && k != "bfe_http.Header.Get" {
-				if lk, isLk := ssa.Instruction(ci).(*ssa.Call); isLk {
-					_ = lk
-				}
 				continue
 			}
 			nHdr++
@@ -387,57 +549,115 @@ func runC02(c *core.Ctx) {
 	}
 	c.Min("key-header", 1)
 	// ---- gslb partition: totalWeight sums weight only under weight > 0 ----------------------------------------------------
+	twF, _ := c.P.Obj(gslb, "BalanceGslb.totalWeight").(*types.Var)
 	for _, fname := range []string{"BalanceGslb.Init", "BalanceGslb.Reload"} {
 		fn := c.P.Func(gslb, fname)
 		if fn == nil {
 			c.Missing(gslb + "." + fname)
 			continue
 		}
+		// the value stored into bal.totalWeight, followed backwards through phis, helper results and
+		// helper parameters, is 0 plus weights that were tested > 0 where they are added
 		n := 0
-		for _, in := range allInstrs(fn) {
-			b, ok := in.(*ssa.BinOp)
-			if !ok || b.Op != token.ADD {
-				continue
-			}
-			if phi, isPhi := b.X.(*ssa.Phi); !isPhi || phi.Comment != "totalWeight" {
-				continue
-			}
-			n++
-			pos := core.HasGuard(in.Block(), func(g core.Guard) bool {
-				c2, ok := g.Cond.(*ssa.BinOp)
-				return ok && g.Pol && c2.Op == token.GTR && isZero(c2.Y) && core.StripConv(c2.X) == core.StripConv(b.Y)
-			}) || func() bool {
-				e := fieldLoadOf(b.Y, "weight")
-				if e == nil {
-					return false
+		okStore := false
+		for _, st := range core.FieldStores(balRegion(c.P, fn), twF) {
+			okStore = true
+			seen := map[ssa.Value]bool{}
+			var walk func(v ssa.Value, d int)
+			walk = func(v ssa.Value, d int) {
+				v = core.StripConv(v)
+				if seen[v] || d > 12 {
+					return
 				}
-				_, p := eligibleByGuards(e, core.GuardsAt(in.Block()))
-				return p
-			}()
-			c.Check("gslb-partition", fmt.Sprintf("%s:sum#%d", fname, n), in.Pos(), pos, "totalWeight accumulates a weight that was not tested > 0, while subClusterBalance walks only sub-clusters with weight > 0: the modulus and the walked weights would disagree")
+				seen[v] = true
+				switch x := v.(type) {
+				case *ssa.Phi:
+					for _, e := range x.Edges {
+						walk(e, d+1)
+					}
+				case *ssa.Const:
+					if !isZero(x) {
+						okStore = false
+					}
+				case *ssa.BinOp:
+					if x.Op != token.ADD {
+						okStore = false
+						return
+					}
+					// accumulator + term: the accumulator is the operand that leads back to this sum
+					acc, term := x.X, x.Y
+					if _, isPhi := core.StripConv(acc).(*ssa.Phi); !isPhi {
+						if _, isPhi2 := core.StripConv(term).(*ssa.Phi); isPhi2 {
+							acc, term = term, acc
+						}
+					}
+					n++
+					pos := false
+					for _, f := range balFactsCtx(c.P, x.Block()) {
+						if f.G().CmpIs(token.GTR, func(v ssa.Value) bool { return core.StripConv(f.res(v)) == core.StripConv(term) }, isZero) {
+							pos = true
+						}
+					}
+					if e := fieldLoadOf(term, "weight"); e != nil && !pos {
+						_, pos = balEligibleAt(c.P, e, x.Block())
+					}
+					c.Check("gslb-partition", fmt.Sprintf("%s:sum#%d", fname, n), x.Pos(), pos, "totalWeight accumulates a weight that was not tested > 0, while subClusterBalance walks only sub-clusters with weight > 0: the modulus and the walked weights would disagree")
+					walk(acc, d+1)
+				case *ssa.Call, *ssa.Extract:
+					_, h, idx := balCallee(x)
+					if h == nil || !balInRegion(c.P, fn, h) {
+						okStore = false
+						return
+					}
+					for _, r := range balResults(h, idx) {
+						walk(r, d+1)
+					}
+				case *ssa.Parameter:
+					if u := balUp(c.P, x); u != ssa.Value(x) {
+						walk(u, d+1)
+					} else {
+						okStore = false
+					}
+				default:
+					okStore = false
+				}
+			}
+			walk(st.Store.Val, 0)
 		}
 		if n == 0 {
 			c.Check("gslb-partition", fname+":sum", fn.Pos(), false, "no accumulation into totalWeight found")
 		}
-		// stored into bal.totalWeight
-		okStore := false
-		for _, in := range allInstrs(fn) {
-			if st, ok := in.(*ssa.Store); ok && core.Render(st.Addr) == "bal.totalWeight" {
-				if phi, isPhi := st.Val.(*ssa.Phi); isPhi && phi.Comment == "totalWeight" {
-					okStore = true
-				}
-			}
-		}
 		c.Check("gslb-partition", fname+":store", fn.Pos(), okStore, "bal.totalWeight must be assigned the accumulated sum")
 	}
+}
+
+// sameGuards: blocks a and b are executed under the same branch conditions
+// (one dominates the other and no conditional branch separates them, or they
+// are the same block).
+func sameGuards(a, b *ssa.BasicBlock) bool {
+	if a == b {
+		return true
+	}
+	ga, gb := core.GuardsAt(a), core.GuardsAt(b)
+	if len(ga) != len(gb) {
+		return false
+	}
+	for i := range ga {
+		if ga[i].Cond != gb[i].Cond || ga[i].Pol != gb[i].Pol {
+			return false
+		}
+	}
+	return a.Dominates(b) || b.Dominates(a)
 }
 
 // publishedSorted checks, for every store to BalanceGslb.subClusters, that the
 // stored list is the value sort.Sort was applied to (whole list, after its
 // last append) or that the field is sorted in place before every success
 // return. Shared by C02 (order independence of hashing) and C14 (the list is
-// a function of the configuration only, not of reload history).
+// a function of the configuration only, not of reload history). A helper that
+// sorts its parameter on every path counts as the sort.
 func publishedSorted(c *core.Ctx, rule string) {
+	defer balAcquire(c.P)()
 	const gslb = "bfe_balance/bal_gslb"
 	// ---- published sub-cluster list is sorted ---------------------------------------------------------------
 	scf, ok := c.P.Obj(gslb, "BalanceGslb.subClusters").(*types.Var)
@@ -446,23 +666,25 @@ func publishedSorted(c *core.Ctx, rule string) {
 		return
 	}
 	byFn := map[*ssa.Function][]core.StoreTo{}
+	var order []*ssa.Function
 	for _, st := range core.FieldStores(c.P.SrcFuncs(""), scf) {
+		if _, seen := byFn[st.Fn]; !seen {
+			order = append(order, st.Fn)
+		}
 		byFn[st.Fn] = append(byFn[st.Fn], st)
 	}
 	nPub := 0
-	for fn, sts := range byFn {
+	for _, fn := range order {
+		sts := byFn[fn]
 		c.Analysed(core.FuncKey(fn))
-		sorts := core.Calls(fn, "sort.Sort")
+		sorts := balSortEvents(fn)
 		for i, st := range sts {
 			nPub++
 			ok := false
 			why := ""
 			for _, s := range sorts {
-				l := sortedList(s)
-				if l == nil {
-					continue
-				}
-				si := s.(ssa.Instruction)
+				l := s.List
+				si := s.At
 				// (A) the stored value itself was sorted before the store, with no append in between
 				if core.StripConv(l) == core.StripConv(st.Store.Val) && core.Dominates(si, st.Store) {
 					ok = true
@@ -508,9 +730,34 @@ func textprotoCanonical(s string) string {
 	return string(b)
 }
 
+// indexParamOf descends from a value through loads and field selections to the
+// first slice element access and returns the parameter used as its index.
+func indexParamOf(v ssa.Value) *ssa.Parameter {
+	for d := 0; d < 8 && v != nil; d++ {
+		switch x := core.StripConv(v).(type) {
+		case *ssa.UnOp:
+			v = x.X
+		case *ssa.FieldAddr:
+			v = x.X
+		case *ssa.Field:
+			v = x.X
+		case *ssa.IndexAddr:
+			return balAsParam(x.Index)
+		case *ssa.Index:
+			return balAsParam(x.Index)
+		default:
+			return nil
+		}
+	}
+	return nil
+}
+
 // checkComparators: the two list comparators are strict orders on the unique
-// immutable keys (AddrInfo, Name). Shared by C02 and C14.
+// immutable keys (AddrInfo, Name). Shared by C02 and C14. The operands are
+// identified by structure (field key of the element indexed by Less's first /
+// second parameter), either spelling of the strict comparison is accepted.
 func checkComparators(c *core.Ctx, rule string) {
+	defer balAcquire(c.P)()
 	const slb, gslb = "bfe_balance/bal_slb", "bfe_balance/bal_gslb"
 	// ---- comparators ------------------------------------------------------------------------
 	for _, cmp := range []struct{ pkg, typ, field string }{{slb, "BackendListSorter", "AddrInfo"}, {gslb, "SubClusterListSorter", "Name"}} {
@@ -520,13 +767,46 @@ func checkComparators(c *core.Ctx, rule string) {
 			continue
 		}
 		c.Analysed(core.FuncKey(fn))
-		ok := false
-		for _, r := range core.Returns(fn) {
-			if b, isB := r.Results[0].(*ssa.BinOp); isB && b.Op == token.LSS && strings.HasSuffix(core.Render(b.X), "."+cmp.field) && strings.HasSuffix(core.Render(b.Y), "."+cmp.field) &&
-				strings.Contains(core.Render(b.X), "[i]") && strings.Contains(core.Render(b.Y), "[j]") {
-				ok = true
+		// every return conforms: the strict comparison itself, `true` under it, or `false` under its negation
+		isKeyOf := func(idx int) func(ssa.Value) bool {
+			return func(v ssa.Value) bool {
+				if fieldLoadOf(v, cmp.field) == nil {
+					return false
+				}
+				pa := indexParamOf(v)
+				return pa != nil && pa.Parent() == fn && balParamIndex(pa) == idx
 			}
 		}
-		c.Check(rule, cmp.typ+".Less", fn.Pos(), ok, cmp.typ+".Less must be the strict order `l[i]."+cmp.field+" < l[j]."+cmp.field+"` on the unique immutable key (a non-strict or different key makes the walked order depend on history)")
+		ok := true
+		nRet := 0
+		for _, r := range core.Returns(fn) {
+			nRet++
+			rv := core.RetVals(r)
+			if len(rv) != 1 {
+				ok = false
+				continue
+			}
+			// receiver is parameter #0, i is #1, j is #2
+			if kv, isK := balConstBool(rv[0]); isK {
+				want := token.GEQ
+				if kv {
+					want = token.LSS
+				}
+				hit := false
+				for _, f := range balFactsAt(r.Block()) {
+					if f.Env == nil && f.G().CmpIs(want, isKeyOf(1), isKeyOf(2)) {
+						hit = true
+					}
+				}
+				if !hit {
+					ok = false
+				}
+				continue
+			}
+			if !(core.Guard{Cond: rv[0], Pol: true}).CmpIs(token.LSS, isKeyOf(1), isKeyOf(2)) {
+				ok = false
+			}
+		}
+		c.Check(rule, cmp.typ+".Less", fn.Pos(), ok && nRet > 0, cmp.typ+".Less must be the strict order `l[i]."+cmp.field+" < l[j]."+cmp.field+"` on the unique immutable key (a non-strict or different key makes the walked order depend on history)")
 	}
 }
